@@ -54,6 +54,11 @@ pub fn real(op: &str, a: &Value, node: &N, ids: &Ids) -> Value {
         idl(v.visit(node.clone()).map(|nm| nm.get_node().clone()), ids)
       }
     }
+    "nav_replace_all" => {
+      let kind = a["kind"].as_u64().unwrap_or(0) as u16;
+      let m = KindMatcher::<SupportLang>::from_id(kind);
+      json!(node.replace_all(m, "X").iter().map(|e| json!([e.position, e.deleted_length, e.inserted_text.len()])).collect::<Vec<_>>())
+    }
     "nav_node" => json!({
       "parent": opt_id(node.parent(), ids),
       "children": idl(node.children(), ids),
@@ -447,6 +452,31 @@ fn oracle_visit(o: &mut Out, st: &mut Stats, src: &Source, n: &N, ids: &Ids, a: 
   }
 }
 
+/// C06 on the library's overlap-free mode: the edits of `replace_all` are those of the outermost
+/// matches — ordered, disjoint (touching allowed), inside the node, one per outermost match
+fn oracle_replace_all(o: &mut Out, st: &mut Stats, src: &Source, n: &N, ids: &Ids, kind: u16, got: &Value) {
+  bump(st, "replace-all");
+  let m = move |x: &N| x.kind_id() == kind;
+  let mut want = vec![];
+  outermost(n, &m, &mut want);
+  let want: Vec<Value> = want.iter().map(|x| json!([x.range().start, x.range().len(), 1])).collect();
+  let mut ordered = true;
+  let mut lo = n.range().start;
+  if let Some(es) = got.as_array() {
+    for e in es {
+      let (p, d) = (e[0].as_u64().unwrap_or(0) as usize, e[1].as_u64().unwrap_or(0) as usize);
+      if p < lo || p + d > n.range().end {
+        ordered = false;
+      }
+      lo = p + d;
+    }
+  }
+  if *got != json!(want) || !ordered {
+    let touching = want.windows(2).any(|w| w[0][0].as_u64().unwrap_or(0) + w[0][1].as_u64().unwrap_or(0) == w[1][0].as_u64().unwrap_or(1));
+    fail(o, "replace-all", format!("replace_all ordered={ordered} touching-matches={touching}"), src, n, ids, json!({"kind": kind, "got": got, "want": want}));
+  }
+}
+
 fn pick_nodes<'r>(all: &[N<'r>], rng: &mut Rng, budget: usize) -> Vec<N<'r>> {
   if all.len() <= budget {
     return all.to_vec();
@@ -671,6 +701,88 @@ pub fn navigation(ctx: &Ctx, rng: &mut Rng, o: &mut Out) {
            "contract_failures": contract_fail, "cursor_contract_failures": cursor_fail, "sibling_clause_skipped_zero_width_parent": st.skipped_zero_width,
            "zero_width_parent_sibling_mismatches": st.zero_width_mismatch}),
   );
+}
+
+/// C06 unit `replace_all`: `Node::replace_all` (the library's overlap-free mode) with a kind matcher on
+/// documents of every language — the model's `replaceAll` on the dumped tree, and the property's
+/// clause (edits ordered, disjoint, inside the node, one per outermost match) on the implementation
+pub fn replace_all_unit(ctx: &Ctx, rng: &mut Rng, o: &mut Out) {
+  let sources = corpus::load();
+  let variants = if ctx.thorough { 8 } else { 2 };
+  let per_start = if ctx.thorough { 8 } else { 4 };
+  let mut st = Stats { cases: HashMap::new(), skipped_zero_width: 0, zero_width_mismatch: 0 };
+  let mut extra: Vec<Source> = vec![
+    // matches with no byte between them (minified statements, callee + arguments, adjacent elements)
+    Source { lang: SupportLang::JavaScript, name: "witness/touching-statements.js".into(), text: "foo(1);foo(2);foo(3);".into() },
+    Source { lang: SupportLang::JavaScript, name: "witness/callee-args.js".into(), text: "f(x)(y)(z)".into() },
+    Source { lang: SupportLang::Tsx, name: "witness/adjacent-jsx.tsx".into(), text: "let a = <p><a/><b/><a/></p>;".into() },
+    Source { lang: SupportLang::JavaScript, name: "witness/nested-some.js".into(), text: "Some(Some(1)); Some(2);Some(Some(Some(3)))".into() },
+    Source { lang: SupportLang::JavaScript, name: "witness/empty.js".into(), text: "".into() },
+    Source { lang: SupportLang::Python, name: "witness/nested-call.py".into(), text: "f(g(h(1)), g(2))\n".into() },
+  ];
+  extra.extend(sources);
+  let mut ti = 0usize;
+  let mut trees = 0usize;
+  let mut with_touching = 0usize;
+  let mut with_nested = 0usize;
+  for src0 in extra.iter() {
+    for v in 0..variants {
+      let text = if v == 0 { src0.text.clone() } else { corpus::mutate(&src0.text, rng) };
+      let src = Source { lang: src0.lang, name: format!("{}#{v}", src0.name), text };
+      let grep = src.lang.ast_grep(&src.text);
+      let root = grep.root();
+      let tid = format!("RA{ti}");
+      ti += 1;
+      trees += 1;
+      let ids = register_tree(o, &tid, &src, &root);
+      let mut all: Vec<N> = vec![];
+      pre_rec(&root, &mut all);
+      // kinds whose nodes nest, and kinds with two nodes that touch
+      let mut nesting: Vec<u16> = vec![];
+      let mut touching: Vec<u16> = vec![];
+      for n in all.iter().take(4000) {
+        if n.ancestors().any(|p| p.kind_id() == n.kind_id()) && !nesting.contains(&n.kind_id()) {
+          nesting.push(n.kind_id());
+        }
+        if let Some(nx) = n.next() {
+          if nx.kind_id() == n.kind_id() && nx.range().start == n.range().end && !n.range().is_empty() && !touching.contains(&n.kind_id()) {
+            touching.push(n.kind_id());
+          }
+        }
+      }
+      let inner: Vec<&N> = all.iter().filter(|n| n.children().len() > 1).collect();
+      let mut starts: Vec<N> = vec![root.clone()];
+      for _ in 0..3 {
+        if !inner.is_empty() {
+          starts.push((*rng.pick(&inner)).clone());
+        }
+      }
+      for s in &starts {
+        let mut sub = vec![];
+        pre_rec(s, &mut sub);
+        let mut kinds: Vec<u16> = vec![];
+        kinds.extend(touching.iter().take(2));
+        kinds.extend(nesting.iter().take(2));
+        while kinds.len() < per_start + 2 {
+          kinds.push(rng.pick(&sub).kind_id());
+        }
+        for kind in kinds {
+          let ra = json!({"t": tid, "node": ids.of(s), "kind": kind});
+          let edits = real("nav_replace_all", &ra, s, &ids);
+          o.op("nav_replace_all", ra.clone(), edits.clone());
+          if touching.contains(&kind) {
+            with_touching += 1;
+          }
+          if nesting.contains(&kind) {
+            with_nested += 1;
+          }
+          oracle_replace_all(o, &mut st, &src, s, &ids, kind, &edits);
+        }
+      }
+    }
+  }
+  let total: usize = st.cases.values().sum();
+  o.oracle("replace-all-done", true, json!({"cases": total, "trees": trees, "kinds_with_touching_nodes": with_touching, "kinds_that_nest": with_nested}));
 }
 
 /// replay of a self-contained op (`lang`, `src` inline)
